@@ -36,31 +36,67 @@ class RequestCapExceeded(Exception):
 
 
 # --------------------------------------------------------------------------- virtual sleep
+class VirtualClock:
+    """Seconds of virtual time: advanced by the virtual sleeps and by slow transfers in the fakes."""
+
+    def __init__(self):
+        self.t = 0.0
+
+    def advance(self, seconds):
+        if seconds and seconds > 0:
+            self.t += float(seconds)
+
+
+CLOCK = VirtualClock()
+
+
 class VirtualSleep:
-    """Makes backoff's sleeps virtual: asyncio.sleep / time.sleep return at once and are recorded."""
+    """Makes backoff's sleeps virtual: asyncio.sleep / time.sleep return at once, are recorded and advance the virtual
+    clock; the clock backoff itself reads for max_time / elapsed (datetime.datetime.now() in backoff._sync / _async)
+    is the virtual one, so time spent in a slow transfer counts exactly as it would in reality."""
 
     def __init__(self):
         self.slept = []
 
     def __enter__(self):
+        import datetime as _dt
+        import types
+        import backoff._async
+        import backoff._sync
         self._asleep, self._tsleep = asyncio.sleep, time.sleep
         real = self._asleep
+        CLOCK.t = 0.0
+        base = _dt.datetime(2026, 1, 1)
+
+        class _VirtualDatetime(_dt.datetime):
+            @classmethod
+            def now(cls, tz=None):
+                return base + _dt.timedelta(seconds=CLOCK.t)
+
+        shim = types.SimpleNamespace(datetime=_VirtualDatetime, timedelta=_dt.timedelta)
+        self._saved = (backoff._async.datetime, backoff._sync.datetime)
+        backoff._async.datetime = backoff._sync.datetime = shim
 
         async def vsleep(delay, result=None):
             if delay and delay > 0:
                 self.slept.append(float(delay))
+                CLOCK.advance(delay)
             await real(0)
             return result
 
         def tsleep(delay):
             if delay and delay > 0:
                 self.slept.append(float(delay))
+                CLOCK.advance(delay)
 
         asyncio.sleep, time.sleep = vsleep, tsleep
         return self
 
     def __exit__(self, *exc):
+        import backoff._async
+        import backoff._sync
         asyncio.sleep, time.sleep = self._asleep, self._tsleep
+        backoff._async.datetime, backoff._sync.datetime = self._saved
 
 
 @contextlib.contextmanager
@@ -81,7 +117,19 @@ def patched_async_client(handler):
 
 
 # --------------------------------------------------------------------------- fault plans
-STATUS_KINDS = {'500': 500, '503': 503, '429': 429, '401': 401, '403': 403, '400': 400}
+STATUS_KINDS = {'500': 500, '503': 503, '429': 429, '401': 401, '403': 403, '400': 400, '408': 408}
+
+
+# the transport-level exceptions httpx really raises (all httpx.TransportError, hence httpx.HTTPError)
+TRANSPORT_ERRORS = ('ConnectError', 'ConnectTimeout', 'ReadError', 'ReadTimeout', 'WriteError', 'WriteTimeout', 'PoolTimeout',
+                    'CloseError', 'RemoteProtocolError', 'LocalProtocolError', 'ProxyError')
+
+
+def transport_error(rule, default, message):
+    """The exception a dropped connection surfaces as: rule['exc'] names the httpx class (default given)."""
+    name = (rule or {}).get('exc') or default
+    assert name in TRANSPORT_ERRORS, name
+    return getattr(httpx, name)('fake: ' + message)
 
 
 class FaultPlan:
@@ -105,18 +153,20 @@ class FaultPlan:
 class _Body(httpx.AsyncByteStream):
     """Response body sent in pieces; optionally the connection drops after k pieces."""
 
-    def __init__(self, data, piece, drop_after=None):
-        self.data, self.piece, self.drop_after = data, max(1, piece), drop_after
+    def __init__(self, data, piece, drop_after=None, rule=None, seconds_per_piece=0):
+        self.data, self.piece, self.drop_after, self.rule = data, max(1, piece), drop_after, rule
+        self.seconds_per_piece = seconds_per_piece
 
     async def __aiter__(self):
         n = 0
         for i in range(0, len(self.data), self.piece):
             if self.drop_after is not None and n >= self.drop_after:
-                raise httpx.ReadError('fake: connection dropped in mid-download')
+                raise transport_error(self.rule, 'ReadError', 'connection dropped in mid-download')
+            CLOCK.advance(self.seconds_per_piece)
             yield self.data[i:i + self.piece]
             n += 1
         if self.drop_after is not None and n <= self.drop_after:
-            raise httpx.ReadError('fake: connection dropped at the end of the download')
+            raise transport_error(self.rule, 'ReadError', 'connection dropped at the end of the download')
 
 
 class _FakeBase:
@@ -127,6 +177,7 @@ class _FakeBase:
         self.plan = FaultPlan()
         self.log = []            # (op, name or None, status or fault kind)
         self.nrequests = 0
+        self.seconds_per_piece = 0       # virtual seconds every body piece takes (a slow link)
 
     def count(self, op):
         return sum(1 for o, _, _ in self.log if o == op)
@@ -142,12 +193,13 @@ class _FakeBase:
         drop_after = fault.get('after', 0) if fault and fault['kind'] == 'drop_body' else None
         async for chunk in request.stream:
             if drop_after is not None and n >= drop_after:
-                raise httpx.WriteError('fake: connection dropped in mid-upload')
+                raise transport_error(fault, 'WriteError', 'connection dropped in mid-upload')
             if chunk:
                 chunks.append(bytes(chunk))
                 n += 1
+                CLOCK.advance(self.seconds_per_piece)
         if drop_after is not None:
-            raise httpx.WriteError('fake: connection dropped at the end of the upload')
+            raise transport_error(fault, 'WriteError', 'connection dropped at the end of the upload')
         return b''.join(chunks)
 
 
@@ -172,7 +224,7 @@ class FakeS3(_FakeBase):
         status = STATUS_KINDS[kind.split('_')[0]]
         headers = {'retry-after': '3'} if status == 429 else None
         return self._error(status, {500: 'InternalError', 503: 'SlowDown', 429: 'TooManyRequests', 401: 'ExpiredToken',
-                                    403: 'AccessDenied', 400: 'BadRequest'}[status], headers)
+                                    403: 'AccessDenied', 400: 'BadRequest', 408: 'RequestTimeout'}[status], headers)
 
     async def handler(self, request: httpx.Request):
         self._tick()
@@ -191,7 +243,7 @@ class FakeS3(_FakeBase):
         kind = fault['kind'] if fault else None
         if kind == 'drop':
             self.log.append((op, key, 'drop'))
-            raise httpx.ConnectError('fake: connection refused')
+            raise transport_error(fault, 'ConnectError', 'connection refused')
         if kind in STATUS_KINDS:
             if op == 'PUT':
                 await self._read_body(request, None)
@@ -209,13 +261,13 @@ class FakeS3(_FakeBase):
             if key in self.objects:
                 data = self.objects[key]
                 drop = fault.get('after', 0) if kind == 'drop_body' else None
-                resp = httpx.Response(200, headers={'content-length': str(len(data))}, stream=_Body(data, self.piece, drop))
+                resp = httpx.Response(200, headers={'content-length': str(len(data))}, stream=_Body(data, self.piece, drop, fault, self.seconds_per_piece))
             else:
                 resp = self._error(404, 'NoSuchKey')
         elif op == 'PUT':
             try:
                 body = await self._read_body(request, fault)
-            except httpx.WriteError:
+            except httpx.TransportError:
                 self.log.append((op, key, 'drop_body'))
                 raise
             declared = request.headers.get('content-length')
@@ -231,6 +283,9 @@ class FakeS3(_FakeBase):
             resp = httpx.Response(204)
         else:
             resp = self._error(405, 'MethodNotAllowed')
+        if kind == 'drop_after':
+            self.log.append((op, key, kind))
+            raise transport_error(fault, 'RemoteProtocolError', 'server closed the connection without an answer')
         if after:
             self.log.append((op, key, kind))
             return self._fault_response('500')
@@ -301,7 +356,7 @@ class FakeB2(_FakeBase):
     def _fault_response(self, kind):
         status = STATUS_KINDS[kind.split('_')[0]]
         code = {500: 'internal_error', 503: 'service_unavailable', 429: 'too_many_requests', 401: 'expired_auth_token',
-                403: 'access_denied', 400: 'bad_request'}[status]
+                403: 'access_denied', 400: 'bad_request', 408: 'request_timeout'}[status]
         return self._error(status, code, {'retry-after': '3'} if status == 429 else None)
 
     def _op_of(self, request):
@@ -335,7 +390,7 @@ class FakeB2(_FakeBase):
             kind = None
         if kind == 'drop':
             self.log.append((op, None, 'drop'))
-            raise httpx.ConnectError('fake: connection refused')
+            raise transport_error(fault, 'ConnectError', 'connection refused')
         if kind in STATUS_KINDS:
             if request.method == 'POST':
                 await self._read_body(request, None)
@@ -356,7 +411,7 @@ class FakeB2(_FakeBase):
         elif op == 'upload':
             try:
                 body = await self._read_body(request, fault)
-            except httpx.WriteError:
+            except httpx.TransportError:
                 self.log.append((op, None, 'drop_body'))
                 raise
             name = unquote_plus(request.headers.get('x-bz-file-name', ''))
@@ -387,7 +442,7 @@ class FakeB2(_FakeBase):
             else:
                 data = objs[name]
                 drop = fault.get('after', 0) if kind == 'drop_body' else None
-                resp = httpx.Response(200, headers={'content-length': str(len(data))}, stream=_Body(data, self.piece, drop))
+                resp = httpx.Response(200, headers={'content-length': str(len(data))}, stream=_Body(data, self.piece, drop, fault, self.seconds_per_piece))
         else:
             body = json.loads((await self._read_body(request, None)) or b'{}')
             if auth not in self.tokens:
@@ -417,6 +472,9 @@ class FakeB2(_FakeBase):
                 resp = self._list(body)
             else:
                 resp = self._error(400, 'bad_request')
+        if kind == 'drop_after':
+            self.log.append((op, name, kind))
+            raise transport_error(fault, 'RemoteProtocolError', 'server closed the connection without an answer')
         if after:
             self.log.append((op, name, kind))
             return self._fault_response('500')
